@@ -325,10 +325,12 @@ func VsymC17Commands() {
 	var err error
 	var wantCmd plugin.Command
 	fieldsOK := true
+	respNil := false
 	switch which {
 	case 0:
 		var r *plugin.DescribeKeyResponse
 		r, err = p.DescribeKey(ctx, &plugin.DescribeKeyRequest{KeyID: "k"})
+		respNil = r == nil
 		wantCmd = plugin.CommandDescribeKey
 		if err == nil && shape == 7 {
 			fieldsOK = r != nil && r.KeyID == keyID && r.KeySpec == "RSA-2048"
@@ -336,6 +338,7 @@ func VsymC17Commands() {
 	case 1:
 		var r *plugin.GenerateSignatureResponse
 		r, err = p.GenerateSignature(ctx, &plugin.GenerateSignatureRequest{KeyID: "k", Payload: []byte("p")})
+		respNil = r == nil
 		wantCmd = plugin.CommandGenerateSignature
 		if err == nil && shape == 7 {
 			fieldsOK = r != nil && r.KeyID == keyID && string(r.Signature) == string(blob) && len(r.CertificateChain) == 1 && string(r.CertificateChain[0]) == string(blob)
@@ -343,6 +346,7 @@ func VsymC17Commands() {
 	case 2:
 		var r *plugin.GenerateEnvelopeResponse
 		r, err = p.GenerateEnvelope(ctx, &plugin.GenerateEnvelopeRequest{KeyID: "k", Payload: []byte("p")})
+		respNil = r == nil
 		wantCmd = plugin.CommandGenerateEnvelope
 		if err == nil && shape == 7 {
 			fieldsOK = r != nil && string(r.SignatureEnvelope) == string(blob) && r.SignatureEnvelopeType == keyID && len(r.Annotations) == 1 && r.Annotations["a"] == keyID
@@ -350,8 +354,9 @@ func VsymC17Commands() {
 	default:
 		var r *plugin.VerifySignatureResponse
 		r, err = p.VerifySignature(ctx, &plugin.VerifySignatureRequest{})
+		respNil = r == nil
 		wantCmd = plugin.CommandVerifySignature
-		if err == nil && shape == 7 {
+		if err == nil && shape == 7 && r != nil {
 			res := r.VerificationResults[plugin.CapabilityTrustedIdentityVerifier]
 			fieldsOK = r != nil && len(r.VerificationResults) == 1 && res != nil && res.Success && res.Reason == keyID && len(r.ProcessedAttributes) == 1
 		}
@@ -360,6 +365,7 @@ func VsymC17Commands() {
 	vr.Assert(cmd.calls == 1 && cmd.path == p.path && cmd.command == wantCmd, "the plugin executable is run once with the command of the request")
 	vr.Assert((err == nil) == wantOK, "a call succeeds iff the process exited successfully with a JSON reply of the expected shape")
 	vr.Assert(fieldsOK, "the returned response carries the reply's values")
+	vr.Assert(vr.Implies(err == nil, !respNil), "success comes with a response (callers use it without a nil check): whatever the reply - the JSON value null included")
 	if cmd.fail {
 		c17CheckFailure(err, kind, code, msg, meta)
 		return
